@@ -75,9 +75,9 @@ WEIGHT_POOL = [0.5, 1.0, 1.0, 2.0, 3.5]
 COST_POOL = [0.0, 0.5, 1.0, 1.0, 2.0, 5.0, 10.0]
 COMPONENTS = ["PWC", "PWC", "PWC", "MMC", "MMC", "SKC", "SKC", "SKC", "SKC",
               "SWC", "SWC", "AEC", "AEC", "ALR", "ALR"]
-SKC_ESTS = ["GaussianNB", "GaussianNB", "LogisticRegression",
-            "DecisionTreeClassifier", "SGDClassifier", "SGDClassifier",
-            "KNeighborsClassifier"]
+SKC_ESTS = ["LogisticRegression", "DecisionTreeClassifier", "GaussianNB",
+            "SGDClassifier", "LogisticRegression", "GaussianNB",
+            "KNeighborsClassifier", "SGDClassifier"]
 
 coord = st.integers(-400, 400).map(lambda v: v / 100.0)
 lattice = st.integers(-2, 2).map(float)
@@ -511,6 +511,20 @@ def _raised_in_sklearn_mixture(exc):
         "\\", "/")
 
 
+def _zero_variance_rows(case, eff):
+    """Input predicate: all labeled rows the (first) fit of the wrapped
+    estimator sees are identical (GaussianNB: variance floor 0)."""
+    rows = [i for i in eff if _row_labeled(case["y"][i])]
+    if (case["cfg"]["kind"] == "SklearnClassifier"
+            and case["fit_method"] == "partial_fit"
+            and case.get("split") is not None):
+        # GaussianNB fixes its variance floor in the first partial_fit
+        first = [i for i in rows if i < case["split"]]
+        rows = first or rows
+    rows = [case["X"][i] for i in rows]
+    return bool(rows) and all(r == rows[0] for r in rows)
+
+
 def _prior_of(cfg):
     if cfg["kind"] in clfreg.CLASS_FREQUENCY_KINDS:
         return cfg["params"].get("class_prior", 0.0)
@@ -671,10 +685,16 @@ def run_case(case):
     if not fallback and not nan_est:
         es = _estimator_row_sums(clf, cfg, Xq)
         if es is not None and np.max(np.abs(es - 1)) > 1e-9:
-            lab.append("estimator_not_normalised")
-            if np.max(np.abs(es - 1)) > 1e-4:
-                raise HarnessError(f"wrapped estimator row sums {es}")
-            want_sums = es
+            if np.max(np.abs(es - 1)) <= 1e-6:
+                # precision loss inside the wrapped estimator: the wrapper
+                # has to preserve these sums
+                lab.append("estimator_not_normalised")
+                want_sums = es
+            else:
+                lab.append("estimator_invalid_proba")
+                ptrig = ("zero_variance_labeled_rows"
+                         if _zero_variance_rows(case, eff)
+                         else "estimator_invalid_proba")
     if np.max(np.abs(P.sum(axis=1) - want_sums)) > 1e-8:
         viol.append(Violation(comp, "proba_rows_do_not_sum_to_one", ptrig,
                               f"row sums {P.sum(axis=1).tolist()} expected "
@@ -764,15 +784,8 @@ def run_case(case):
         # the wrapped estimator returned NaN probabilities: predict_proba
         # switches to the label distribution, predict (no cost matrix) still
         # asks the estimator
-        rows = [i for i in eff if _row_labeled(case["y"][i])]
-        if (kind == "SklearnClassifier" and case["fit_method"] == "partial_fit"
-                and case.get("split") is not None):
-            # GaussianNB fixes its variance floor in the first partial_fit
-            first = [i for i in rows if i < case["split"]]
-            rows = first or rows
-        rows = [case["X"][i] for i in rows]
         ctrig = ("zero_variance_labeled_rows"
-                 if all(r == rows[0] for r in rows) else "estimator_proba_nan")
+                 if _zero_variance_rows(case, eff) else "estimator_proba_nan")
     if trig != "valid_input":
         ctrig = trig
     cost_flips = False
